@@ -7,6 +7,7 @@ import (
 	"encoding/json"
 	"fmt"
 	"io"
+	"net/http"
 	"strings"
 	"testing"
 
@@ -57,6 +58,15 @@ type Case struct {
 	// refused like its flat expansion [GET /dg, HEAD /dg], of which everything in
 	// front of the refused entry stands and nothing behind it.
 	DupGet int `json:"get_under_autohead_on_a_taken_path,omitempty"`
+	// Wrapper: both instances have a HandlerWrapper that announces every handler
+	// it was given (a -1 in the trace in front of the handler's id), and the
+	// handlers have a shape the wrapper gets to see: group handlers are wrapped
+	// like the route's own.
+	Wrapper bool `json:"handler_wrapper,omitempty"`
+	// DupCombo: after the program, a Combo with common handlers declares a
+	// method on a path where that method is taken: refused; then a route at the
+	// top level, which runs its own handlers only.
+	DupCombo bool `json:"combo_method_on_a_taken_path,omitempty"`
 }
 
 func badJoin(k int) (nodes []Node, flat string) {
@@ -150,9 +160,24 @@ type builder struct {
 	next  int
 	trace *[]int
 	seen  *map[string]string
+	// slow: the handlers have a shape that is none of the built-in fast ones, so
+	// that a HandlerWrapper gets to see every one of them
+	slow bool
 }
 
 func (b *builder) handler(id int) flamego.Handler {
+	if b.slow {
+		return func(ctx flamego.Context, _ *http.Request) {
+			*b.trace = append(*b.trace, id)
+			if *b.seen == nil {
+				m := map[string]string{}
+				for k, v := range ctx.Params() {
+					m[k] = v
+				}
+				*b.seen = m
+			}
+		}
+	}
 	return func(ctx flamego.Context) {
 		*b.trace = append(*b.trace, id)
 		if *b.seen == nil {
@@ -268,6 +293,19 @@ func newApp() *app {
 	return a
 }
 
+// wrap installs a HandlerWrapper that announces itself in the trace and then
+// invokes the handler it was given.
+func (a *app) wrap() {
+	a.f.HandlerWrapper(func(h flamego.Handler) flamego.Handler {
+		return func(ctx flamego.Context) {
+			a.trace = append(a.trace, -1)
+			if _, err := ctx.Invoke(h); err != nil {
+				panic(err)
+			}
+		}
+	})
+}
+
 func (a *app) serve(m, p string) ([]int, map[string]string, bool) {
 	a.trace, a.seen, a.nf = nil, nil, false
 	a.f.ServeHTTP(rt.NewSpy(), rt.NewRequest(m, p, nil))
@@ -321,9 +359,13 @@ func checkCase(c Case) (out evid.Outcome) {
 	flat := flatten(c)
 	// P: the program
 	p := newApp()
+	if c.Wrapper {
+		p.wrap()
+		out.Classes = append(out.Classes, "handler-wrapper")
+	}
 	perr := func() (err interface{}) {
 		defer func() { err = recover() }()
-		b := &builder{f: p.f, trace: &p.trace, seen: &p.seen}
+		b := &builder{f: p.f, trace: &p.trace, seen: &p.seen, slow: c.Wrapper}
 		b.walk(c.Program)
 		return nil
 	}()
@@ -339,7 +381,10 @@ func checkCase(c Case) (out evid.Outcome) {
 	}
 	// Q: the flat list
 	q := newApp()
-	qb := &builder{f: q.f, trace: &q.trace, seen: &q.seen}
+	if c.Wrapper {
+		q.wrap()
+	}
+	qb := &builder{f: q.f, trace: &q.trace, seen: &q.seen, slow: c.Wrapper}
 	if c.BadJoin > 0 {
 		nodes, flatPath := badJoin(c.BadJoin)
 		refused := func(f func()) (r interface{}) {
@@ -371,6 +416,37 @@ func checkCase(c Case) (out evid.Outcome) {
 		}
 		out.NonTrivial = true
 		out.Classes = append(out.Classes, "ill-formed-concatenation-refused")
+	}
+	if c.DupCombo {
+		refused := func(f func()) (r interface{}) {
+			defer func() { r = recover() }()
+			f()
+			return nil
+		}
+		pRan, qRan := "", ""
+		ph := func(tag string) flamego.Handler { return func() { pRan += tag } }
+		qh := func(tag string) flamego.Handler { return func() { qRan += tag } }
+		p.f.Post("/dc", ph("a"))
+		q.f.Route("POST", "/dc", []flamego.Handler{qh("a")})
+		if refused(func() { p.f.Combo("/dc", ph("common")).Get(ph("g")).Post(ph("b")) }) == nil {
+			return evid.Fail("duplicate-accepted", "Combo(\"/dc\").Post was accepted although POST /dc exists; program %s", js(c))
+		}
+		q.f.Route("GET", "/dc", []flamego.Handler{qh("common"), qh("g")})
+		if refused(func() { q.f.Route("POST", "/dc", []flamego.Handler{qh("common"), qh("b")}) }) == nil {
+			panic("harness: the flat registration of a taken POST /dc was accepted")
+		}
+		p.f.Get("/after-dc", ph("own"))
+		q.f.Route("GET", "/after-dc", []flamego.Handler{qh("own")})
+		for _, probe := range [][2]string{{"GET", "/after-dc"}, {"GET", "/dc"}, {"POST", "/dc"}} {
+			pRan, qRan = "", ""
+			p.f.ServeHTTP(rt.NewSpy(), rt.NewRequest(probe[0], probe[1], nil))
+			q.f.ServeHTTP(rt.NewSpy(), rt.NewRequest(probe[0], probe[1], nil))
+			if pRan != qRan {
+				return evid.Fail("refused-declaration-residue", "after Combo(\"/dc\", common).Get(g).Post(b) was refused at Post (POST /dc was taken): %s %s runs %q, after the flat expansion it runs %q; program %s", probe[0], probe[1], pRan, qRan, js(c))
+			}
+		}
+		out.NonTrivial = true
+		out.Classes = append(out.Classes, "combo-method-on-a-taken-path")
 	}
 	if c.DupGet > 0 {
 		refused := func(f func()) (r interface{}) {
@@ -480,6 +556,14 @@ func checkCase(c Case) (out evid.Outcome) {
 					}
 					if registered == pnf {
 						return fail(out, "dispatch", "%s: flat expansion registered=%v but the program's not-found ran=%v; program %s", desc, registered, pnf, js(c))
+					}
+					if c.Wrapper {
+						// every handler is announced by the wrapper first
+						var ww []int
+						for _, id := range want {
+							ww = append(ww, -1, id)
+						}
+						want = ww
 					}
 					if fmt.Sprint(pt) != fmt.Sprint(want) {
 						return fail(out, "handlers", "%s: program ran handlers %v, flat expansion is %v; program %s", desc, pt, want, js(c))
@@ -788,6 +872,8 @@ func TestProp(t *testing.T) {
 		if rapid.IntRange(0, 7).Draw(t, "dupget") == 0 {
 			c.DupGet = rapid.IntRange(1, 2).Draw(t, "dupgetk")
 		}
+		c.Wrapper = rapid.IntRange(0, 4).Draw(t, "wrapper") == 0
+		c.DupCombo = rapid.IntRange(0, 7).Draw(t, "dupcombo") == 0
 		evid.Run(t, "program", c, func() evid.Outcome { return checkCase(c) })
 	})
 }
